@@ -166,7 +166,13 @@ def perform_acl_rule_renames(useractions, col_renames_dict):
         "aclFormula": new_acl_formula,
         "aclFormulaParsed": parse_predicate_formula_json(new_acl_formula)
       }
-      rule_updates.append((rule_rec, new_rule_record))
+      # If the same rule also has a userAttributes update, merge into it, rather than adding a
+      # second update for the same record (which would override the first with the old value).
+      existing = next((values for (rec, values) in rule_updates if rec == rule_rec), None)
+      if existing is not None:
+        existing.update(new_rule_record)
+      else:
+        rule_updates.append((rule_rec, new_rule_record))
 
   useractions.doBulkUpdateFromPairs('_grist_ACLResources', resource_updates)
   useractions.doBulkUpdateFromPairs('_grist_ACLRules', rule_updates)
